@@ -142,16 +142,11 @@ Definition get_protein_annotations (files : list (list (str * str))) (gene_level
 
 (* ProteinAnnotationsColumns.append_columns for one row: (protein names, gene names, fasta headers) *)
 Definition add_once (x : str) (l : list str) : list str := if mem_str x l then l else l ++ [x].
+Definition found_annots (d : adict) (protein_ids : str) : list annot :=
+  flat_map (fun p => match ad_get d (Some p) with Some a => [a] | None => [] end) (split_chr 59%N protein_ids).
+Definition once_fold (l : list str) : list str := fold_left (fun acc x => add_once x acc) l [].
 Definition annotation_columns (d : adict) (protein_ids : str) : str * str * str :=
-  let '(names, genes, hdrs) :=
-    fold_left (fun acc p =>
-                 let '(n, g, h) := acc in
-                 match ad_get d (Some p) with
-                 | None => acc
-                 | Some a => (add_once (a_id a) n,
-                              match a_gene a with Some gn => add_once gn g | None => g end,
-                              add_once (a_header a) h)
-                 end)
-              (split_chr 59%N protein_ids) ([], [], []) in
-  (join [59%N] names, join [59%N] genes, join [59%N] hdrs)
-.
+  let f := found_annots d protein_ids in
+  (join [59%N] (once_fold (map a_id f)),
+   join [59%N] (once_fold (flat_map (fun a => match a_gene a with Some g => [g] | None => [] end) f)),
+   join [59%N] (once_fold (map a_header f))).
